@@ -724,16 +724,12 @@ let rec varint_read_go shifts value l =
      | [] -> VErrShort
      | b :: t ->
        let part = N.modulo b (Npos (XO (XO (XO (XO (XO (XO (XO XH)))))))) in
-       if (&&) (N.eqb shift (Npos (XI (XO (XI (XO XH))))))
-            (N.ltb (Npos (XI (XI (XI XH)))) part)
-       then VErrBad
-       else let value' = N.add value (N.mul part (N.pow (Npos (XO XH)) shift))
-            in
-            if N.ltb b (Npos (XO (XO (XO (XO (XO (XO (XO XH))))))))
-            then if (&&) (negb (N.eqb shift N0)) (N.eqb part N0)
-                 then VErrBad
-                 else VOk (value', t)
-            else varint_read_go more value' t)
+       let value' = N.add value (N.mul part (N.pow (Npos (XO XH)) shift)) in
+       if N.ltb b (Npos (XO (XO (XO (XO (XO (XO (XO XH))))))))
+       then if (&&) (negb (N.eqb shift N0)) (N.eqb part N0)
+            then VErrBad
+            else VOk (value', t)
+       else varint_read_go more value' t)
 
 (** val varint_read : bytes -> vres **)
 
